@@ -52,6 +52,8 @@ import (
 	i2ped "github.com/go-i2p/crypto/ed25519"
 	elgamal "github.com/go-i2p/crypto/elg"
 	"github.com/go-i2p/crypto/types"
+	"go.step.sm/crypto/x25519"
+	xcurve "golang.org/x/crypto/curve25519"
 )
 
 // ---- deterministic key material ---------------------------------------------------------------
@@ -1543,6 +1545,29 @@ func opCtorLS2(a []string) (string, []Fail) {
 			iok, known = indepVerify(signer.typ, signer.pub, cat([]byte{3}, b[:len(b)-sl]), b[len(b)-sl:])
 		}
 		c.verifiedT(signer.typ, first, second, re != nil, iok, known)
+	}
+	// C16 on a CONSTRUCTED LeaseSet2 (every flag / transient-type combination of this op): what the constructor
+	// built, encrypted for a recipient and decrypted again, is the same LeaseSet2
+	if valid && berr == nil && len(b)+60 <= 65535 {
+		sk32 := stream(seed, "c16-recipient", 32)
+		if pub, perr := xcurve.X25519(sk32, xcurve.Basepoint); perr == nil {
+			var ck [32]byte
+			copy(ck[:], stream(seed, "c16-cookie", 32))
+			var blob []byte
+			var eerr error
+			if p := try(func() { blob, eerr = encrypted_leaseset.EncryptInnerLeaseSet2(&ls, ck, pub) }); p != "" {
+				c.fail("C16", "roundtrip:constructed:panic", "EncryptInnerLeaseSet2 panics on a constructed LeaseSet2: %s", p)
+			} else if eerr != nil {
+				c.fail("C16", "roundtrip:constructed:encrypt-error", "EncryptInnerLeaseSet2 fails on a constructed, valid LeaseSet2: %v", eerr)
+			} else if len(blob) <= 65535 {
+				got, derr := c16Decrypt(blob, ck[:], x25519.PrivateKey(append([]byte{}, sk32...)))
+				if derr != nil {
+					c.fail("C16", "roundtrip:constructed:decrypt-error", "decrypt(encrypt(x)) fails for a constructed LeaseSet2 (flags %#x, offline %s): %v", flags, a[6], derr)
+				} else if !bytes.Equal(got, b) {
+					c.fail("C16", "roundtrip:constructed:differs", "decrypt(encrypt(x)) != x for a constructed LeaseSet2 (flags %#x, offline %s): x has %d bytes, the result %d", flags, a[6], len(b), len(got))
+				}
+			}
+		}
 	}
 	return c.line(), c.fails
 }
